@@ -16,10 +16,12 @@ package c04
 
 import (
 	"bytes"
+	"encoding/hex"
 	"encoding/json"
 	"fmt"
 	"math"
 	"os"
+	"regexp"
 	"sort"
 	"testing"
 
@@ -257,7 +259,7 @@ func checkReads(m *model, c cfgT, get func(root []byte, keys [][]byte) [][]byte,
 		lib.Class("dead_root_probe")
 		for i, got := range get([]byte(r), keys) {
 			if got != nil && !m.coveredByCommitted(d.content) {
-				return fmt.Sprintf("root %x was computed by MemSet and never committed, yet after rollback/restart it reads %q=%q from the database", r, keys[i], got)
+				return fmt.Sprintf("root %x was computed by MemSet and never committed, yet after its rollback / a restart it still reads %q=%q", r, keys[i], got)
 			}
 		}
 	}
@@ -351,13 +353,42 @@ func genOps(t *rapid.T, restart bool) []opT {
 	return ops
 }
 
+var missingNode = regexp.MustCompile(`(?:left|right) hash 0x([0-9a-f]+) ErrNodeNotExist`)
+
+// poisonSignature recognises the manifestation of the listed finding that the model cannot predict (a pending
+// update that converges, from another parent or at another height, to content that is already committed): the
+// store panicked because a height-prefixed node key is missing from the database while a record with the same
+// 32-byte content hash exists under another height prefix.
+func poisonSignature(f *fixture, panicMsg string) bool {
+	m := missingNode.FindStringSubmatch(panicMsg)
+	if m == nil {
+		return false
+	}
+	key, _ := hex.DecodeString(m[1])
+	if len(key) <= 32 || !(bytes.HasPrefix(key, []byte("_mb_-")) || bytes.HasPrefix(key, []byte("_mh_-"))) {
+		return false
+	}
+	db := f.st.GetDB()
+	if v, err := db.Get(key); err == nil && len(v) > 0 {
+		return false
+	}
+	it := db.Iterator([]byte("_m"), nil, false) // every height-prefixed node key starts with _mb_- or _mh_-
+	defer it.Close()
+	for it.Rewind(); it.Valid(); it.Next() {
+		if k := it.Key(); len(k) > 32 && !bytes.Equal(k, key) && bytes.HasSuffix(k, key[len(key)-32:]) {
+			return true
+		}
+	}
+	return false
+}
+
 type caseT struct {
 	Cfg cfgT  `json:"cfg"`
 	Ops []opT `json:"ops"`
 }
 
 type outcome struct {
-	nt                                bool
+	nt, cutShort                      bool
 	restarts, forks, identical, empty int
 	rewrites, skipped                 int
 }
@@ -388,6 +419,11 @@ func runSequential(t lib.TB, test string, cs caseT) (res outcome) {
 		if p := recover(); p != nil {
 			if judged { // not the store: the oracle already failed the case (rapid unwinds by panicking)
 				panic(p)
+			}
+			if (cs.Cfg.Prefix || cs.Cfg.Prune) && cs.Cfg.MemTree && lib.Known(knownPoison) && poisonSignature(f, fmt.Sprint(p)) {
+				lib.ExcludedKnown(knownPoison) // the cache stays poisoned: the history ends here
+				res.cutShort = true
+				return
 			}
 			lib.Violation(t, prop, test, caseT{cs.Cfg, cs.Ops[:at+1]}, "step %d (%s): the store panicked: %v", at, cs.Ops[at].Op, p)
 		}
@@ -569,7 +605,7 @@ func TestPropPendingNeverLeaks(t *testing.T) {
 			on   bool
 			name string
 		}{{cs.Cfg.Prefix || cs.Cfg.Prune, "cfg_prefix"}, {cs.Cfg.Prune, "cfg_prune"}, {cs.Cfg.MemTree, "cfg_memtree"}, {cs.Cfg.LevelDB, "cfg_leveldb"},
-			{res.restarts > 0, "restart"}, {res.forks > 0, "fork_same_parent"}, {res.identical > 0, "identical_pending_twice"}, {res.empty > 0, "empty_update"}, {res.rewrites > 0, "rewrite_unchanged_values"}, {res.nt, "nontrivial"}, {res.skipped > 0, "update_left_out_for_known_finding"}} {
+			{res.restarts > 0, "restart"}, {res.forks > 0, "fork_same_parent"}, {res.identical > 0, "identical_pending_twice"}, {res.empty > 0, "empty_update"}, {res.rewrites > 0, "rewrite_unchanged_values"}, {res.nt, "nontrivial"}, {res.skipped > 0, "update_left_out_for_known_finding"}, {res.cutShort, "cut_short_at_known_finding"}} {
 			if cl.on {
 				lib.Class(cl.name)
 			}
@@ -580,7 +616,7 @@ func TestPropPendingNeverLeaks(t *testing.T) {
 	})
 }
 
-// TestKnown_MemTreePoisonedByPendingRoot is the minimal form of finding C04-memtree-pending-root, without rapid.
+// TestKnown_MemTreePoisonedByPendingRoot is the minimal form of finding C04-memtree-pending-poison, without rapid.
 // prefix + memTree (leaf values not cached): Set {a=1,b=2} on the empty root at height 1 commits R. MemSet {a=1}
 // on R at height 2 recomputes the same content, so it replies R again; it is rolled back. Nothing of it was
 // committed, so R must still read a=1, b=2.
